@@ -243,6 +243,29 @@ def _tables_by_path(source, text):
     return out
 
 
+def _pair_declarations(decls, out):
+    """Pair the names of each global / nonlocal statement of the original with those of the output: a name goes with the spelling its other
+    occurrences in the same scope have in the output (else with its own spelling, else with what is left over)."""
+    for (path, xs, ys) in decls:
+        left = list(ys)
+        todo = []
+        for x in xs:
+            here = [y for (x2, y, p2, role) in out if x2 == x and p2 == path and not role.startswith('decorators:') and role != 'declaration']
+            want = next((y for y in here if y in left), None)
+            if want is None:
+                todo.append(x)
+            else:
+                left.remove(want)
+                out.append((x, want, path, 'declaration'))
+        for x in list(todo):
+            if x in left:
+                left.remove(x)
+                todo.remove(x)
+                out.append((x, x, path, 'declaration'))
+        for x, y in zip(todo, left):
+            out.append((x, y, path, 'declaration'))
+
+
 def _walk_pairs(a, b, path, counters, out, problems):
     """Parallel walk of the original (a) and renamed (b) tree in the order the compiler visits scopes; collects (name in a, name in b, scope path,
     role) for every identifier position and reports any other difference."""
@@ -253,7 +276,9 @@ def _walk_pairs(a, b, path, counters, out, problems):
     def child_scope(label):
         key = (path, label)
         counters[key] = counters.get(key, 0) + 1
-        return path + ('%s#%d' % (label, counters[key]),)
+        inner_ = path + ('%s#%d' % (label, counters[key]),)
+        counters.setdefault('__nodes__', {})[inner_] = (a, b)
+        return inner_
 
     def ident(x, y, role, p=None):
         out.append((x, y, path if p is None else p, role))
@@ -354,8 +379,8 @@ def _walk_pairs(a, b, path, counters, out, problems):
     if isinstance(a, (ast.Global, ast.Nonlocal)):
         if len(a.names) != len(b.names):
             problems.append('global / nonlocal statement changed')
-        for x, y in zip(a.names, b.names):
-            ident(x, y, 'declaration')
+        # the names of a declaration are a set: their order carries no meaning. They are paired once the rest of the scope has been walked
+        counters.setdefault('__decls__', []).append((path, list(a.names), list(b.names)))
         return
     if isinstance(a, ast.ExceptHandler):
         if a.type is not None or b.type is not None:
@@ -393,6 +418,10 @@ def _walk_pairs(a, b, path, counters, out, problems):
         elif a.rest is not None:
             ident(a.rest, b.rest, 'capture')
         return
+    if isinstance(a, ast.Module):
+        seq(a.body, b.body, path)
+        _pair_declarations(counters.pop('__decls__', []), out)
+        return
     # everything else: fields compared one to one, identifiers that are not bindings (attributes, keywords ...) must be equal
     for f in a._fields:
         x, y = getattr(a, f, None), getattr(b, f, None)
@@ -412,24 +441,26 @@ def _walk_pairs(a, b, path, counters, out, problems):
             problems.append('%s.%s: %r became %r (not a name the renamer owns)' % (type(a).__name__, f, x, y))
 
 
-def _strip_rebinds(out_tree, orig_names, orig_tree=None):
+def _strip_rebinds(out_tree, orig_names, orig_tree=None, by_node=None):
     """Remove the statements `new = old` the renamer inserts (old: a parameter of that function, or a builtin, at module level); -> {new: old}.
     Only as many leading candidates are removed as the body is longer than the body of the corresponding original function."""
     aliases = {}
 
-    def strip(body, params, module_level, extra, known):
+    def strip(body, params, module_level, extra, known, owner=None):
         keep = []
         for st in body:
-            if extra > 0 and isinstance(st, ast.Assign) and len(st.targets) == 1 and isinstance(st.targets[0], ast.Name) and isinstance(st.value, ast.Name) and st.targets[0].id not in known and \
+            if extra > 0 and isinstance(st, ast.Assign) and len(st.targets) == 1 and isinstance(st.targets[0], ast.Name) and isinstance(st.value, ast.Name) and (st.targets[0].id not in known or extra < 10 ** 5) and \
                     (st.value.id in params or (module_level and st.value.id in dir(builtins))):
                 aliases[st.targets[0].id] = st.value.id
+                if by_node is not None:
+                    by_node.setdefault(owner, {})[st.targets[0].id] = st.value.id
                 extra -= 1
                 continue
             keep.append(st)
         return keep
     orig_funcs = [n for n in ast.walk(orig_tree) if isinstance(n, (ast.FunctionDef, ast.AsyncFunctionDef))] if orig_tree is not None else []
     out_funcs = [n for n in ast.walk(out_tree) if isinstance(n, (ast.FunctionDef, ast.AsyncFunctionDef))]
-    out_tree.body = strip(out_tree.body, set(), True, len(out_tree.body) - len(orig_tree.body) if orig_tree is not None else 10 ** 6, orig_names)
+    out_tree.body = strip(out_tree.body, set(), True, len(out_tree.body) - len(orig_tree.body) if orig_tree is not None else 10 ** 6, orig_names, 'module')
     for i_, n in enumerate(out_funcs):
         a = n.args
         params = {p.arg for p in a.posonlyargs + a.args + a.kwonlyargs + ([a.vararg] if a.vararg else []) + ([a.kwarg] if a.kwarg else [])}
@@ -438,7 +469,7 @@ def _strip_rebinds(out_tree, orig_names, orig_tree=None):
         # a name the corresponding original function mentions is not one the renamer introduced there (a name from elsewhere in the module may well be
         # handed out again inside a function that does not mention it)
         known = ({x.id for x in ast.walk(orig_funcs[i_]) if isinstance(x, ast.Name)} | {x.arg for x in ast.walk(orig_funcs[i_]) if isinstance(x, ast.arg)}) if paired else orig_names
-        n.body = strip(n.body, params, False, extra, known) or [ast.Pass()]
+        n.body = strip(n.body, params, False, extra, known, id(n)) or [ast.Pass()]
     return aliases
 
 
@@ -597,6 +628,34 @@ def judge(source, text, rename_globals=False, preserve_locals=(), preserve_globa
     return problems[:6]
 
 
+def judge_resolution(source, text, rename_globals=False, preserve_locals=(), preserve_globals=()):
+    """O14 (props/resolve_oracle.py): alpha-equivalence per occurrence through the symbol tables; no assumption on the names of the probe."""
+    from . import resolve_oracle
+    orig = ast.parse(source)
+    try:
+        out = ast.parse(text)
+    except SyntaxError as e:
+        return ['the renamed program does not parse: %s' % e]
+    try:
+        compile(text, 'renamed probe', 'exec', dont_inherit=True)
+    except SyntaxError as e:
+        return ['the compiler rejects the renamed program: %s' % e]
+    orig_names = {n.id for n in ast.walk(orig) if isinstance(n, ast.Name)} | {n.arg for n in ast.walk(orig) if isinstance(n, ast.arg)}
+    by_node = {}
+    _strip_rebinds(out, orig_names, orig, by_node=by_node)
+    pairs, structural, counters = [], [], {}
+    _walk_pairs(orig, out, (), counters, pairs, structural)
+    if structural:
+        return structural[:3]
+    scope_nodes = counters.get('__nodes__', {})
+    aliases_by_path = {(): by_node.get('module', {})}
+    for path, (na, nb) in scope_nodes.items():
+        if id(nb) in by_node:
+            aliases_by_path[path] = by_node[id(nb)]
+    return resolve_oracle.problems(source, text, orig, pairs, scope_nodes, aliases_by_path, _tables_by_path, rename_globals=rename_globals,
+                                   preserve_locals=preserve_locals, preserve_globals=preserve_globals)
+
+
 CONFIGS = [('rename_locals', dict(rename_locals=True, rename_globals=False)), ('rename_locals and rename_globals', dict(rename_locals=True, rename_globals=True)),
            ('renaming off', dict(rename_locals=False, rename_globals=False)),
            ('rename_locals with preserved names', dict(rename_locals=True, rename_globals=True, preserve_locals=('l_x', 'q_a', 'v10', 'c_cell', 'a_first'), preserve_globals=('g_const', 'g_many', 'g_table', 'g_match', 'g_hidden')))]
@@ -620,6 +679,8 @@ def run(model, rep, rule='C03.E2E', only=None):
                 rep.violation(rule, fi.loc(), 'probe `%s`, %s' % (label, clabel), '%s: minify fails on a valid module' % ex, key='%s|%s|%s' % (rule, label, clabel))
                 continue
             problems = judge(source, text, rename_globals=cfg.get('rename_globals', False), preserve_locals=cfg.get('preserve_locals', ()), preserve_globals=cfg.get('preserve_globals', ()))
+            if not problems:
+                problems = judge_resolution(source, text, rename_globals=cfg.get('rename_globals', False), preserve_locals=cfg.get('preserve_locals', ()), preserve_globals=cfg.get('preserve_globals', ()))
             if cfg.get('rename_locals') and text != run_pipeline.__dict__.get('_noop'):
                 n_renamed += 1
             if not cfg.get('rename_locals') and not cfg.get('rename_globals'):
@@ -741,7 +802,7 @@ def signatures(model, rep, rule, kinds, sigs):
             except MinifyRaises as ex:
                 rep.violation(rule, fi.loc(), label, '%s: minify fails on a valid module' % ex, key=key)
                 continue
-            problems = judge(source, text)
+            problems = judge(source, text) or judge_resolution(source, text)
             new_of, _p = final_names(source, text)
             try:
                 out_sig = [n for n in ast.walk(ast.parse(text)) if isinstance(n, (ast.FunctionDef, ast.AsyncFunctionDef)) and n.name == 'f']
@@ -752,7 +813,8 @@ def signatures(model, rep, rule, kinds, sigs):
             for n_, k_ in pkinds.items():
                 if n_ not in sig_names:
                     in_place += 1
-                    if k_ in ('arg', 'kwonly') and not (n_ == names[0] and kname in ('method', 'async method', 'classmethod', 'method of a nested class')):
+                    first_pos = next((q for q in names if pkinds[q] in ('posonly', 'arg')), None)
+                    if k_ in ('arg', 'kwonly') and not (k_ == 'arg' and n_ == first_pos and kname in ('method', 'async method', 'classmethod', 'method of a nested class')):
                         problems.append('the %s parameter %s is renamed in the signature' % (k_, n_))
             rep.check(not problems, rule, fi.loc(), '%s -> %r' % (label, text[:70]), 'keyword-callable parameters keep their spelling in the signature; the body is alpha-equivalent',
                       '; '.join(problems[:3]) + ' -- output: %r' % text[:160], key=key)
@@ -869,6 +931,166 @@ def class_body_names(tree):
     return out
 
 
+# ---------------------------------------------------------------------- one name in several scopes, declarations, generated-looking names
+# Judged by the resolution oracle (O14, props/resolve_oracle.py), which identifies a binding by (scope, name) and so needs no unique names.
+REUSE_PROBES = {
+    'nonlocal / global statements naming several names, among them names that look like generated ones': """
+def g_decl():
+    x = 0
+    A = 0
+    B = 1
+    def n_f():
+        nonlocal x, A, B
+        x = x + 1
+        x = x + A
+        A = 5 + B
+        return x
+    n_f()
+    return x, A, B
+y = 0
+C = 0
+def g_glob():
+    global y, C
+    y = y + 1
+    y = y + 1
+    C = 5
+    return y
+print(g_decl(), g_glob(), y, C)
+""",
+    'a global declaration between a local and the function that reads the name': """
+counter = 100
+def make():
+    counter = 0
+    def middle():
+        global counter
+        def inner():
+            return counter
+        counter = counter + 1
+        return inner()
+    counter = counter + 5
+    return middle(), counter
+print(make(), counter)
+""",
+    'global declaration of a name the module never binds': """
+def g_reader():
+    global cfg_external
+    return cfg_external + cfg_external + cfg_external
+def g_builtin():
+    global len
+    return len('a') + len('b') + len('c') + len('d')
+def g_binder():
+    global made_here
+    made_here = 1
+    return made_here + made_here
+print(g_binder(), made_here)
+""",
+    'a class body that reads a name before binding it, same name in the enclosing function and at module level': """
+value = 'global'
+limit = 10
+def outer():
+    value = 'enclosing'
+    limit = 20
+    class K:
+        value = value
+        limit: int = limit
+        def m(self):
+            return value, limit
+    return K.value, K.limit, value, limit, K().m()
+print(outer(), value, limit)
+""",
+    'annotated names that are not simple targets': """
+x = 1
+y = 2
+def f():
+    (x): int
+    (y): int = 5
+    z: int
+    w: int = 7
+    return x, y, w
+print(f(), x, y)
+""",
+    'parameters and locals that are spelled like generated names': """
+class Matrix:
+    def scale(self, A):
+        return self.data * A + self.offset * A
+    def shift(self, B, A=1):
+        return self.data + B + A + self.offset
+    @classmethod
+    def make(cls, A, *rest, B=2):
+        return cls(A, *rest), cls.kind, cls, B
+def pos(first, /, A, B):
+    return first + first + first + A + B
+def star(*items, A=None, **extra):
+    return items, items, items, extra, extra, A
+def local_names(values):
+    A = len(values)
+    total = 0
+    for B in values:
+        total = total + B * A
+    return total, total
+""",
+    'the same name at module level, in a function, in a class, in a comprehension, in a lambda and in a handler': """
+import name
+name_list = [name for name in range(3)]
+def use(name):
+    try:
+        other = [name for name in name]
+    except Exception as name:
+        print(name)
+    else:
+        name = lambda name: name + 1
+    return name, other
+class name_holder:
+    name = name
+    def get(self, name=name):
+        return name, self.name
+from pkg import item as name
+print(name, name_list, use, name_holder)
+""",
+    'nested closures that shadow and re-use one name': """
+def level0(v):
+    def level1():
+        def level2(v):
+            def level3():
+                return v
+            return level3, v
+        return level2(v), v
+    def sibling():
+        v = 2
+        def leaf():
+            nonlocal v
+            v = v + 1
+            return v
+        return leaf
+    return level1, sibling, v
+""",
+}
+
+
+def reuse(model, rep, rule):
+    fi = model.func('python_minifier.minify')
+    n = 0
+    for label, source in sorted(REUSE_PROBES.items()):
+        try:
+            compile(source, 'probe', 'exec', dont_inherit=True)
+        except SyntaxError:
+            rep.note('%s: this interpreter cannot compile the probe %r' % (rule, label))
+            continue
+        for clabel, cfg in (('rename_locals', dict(rename_locals=True, rename_globals=False)), ('rename_locals and rename_globals', dict(rename_locals=True, rename_globals=True))):
+            key = '%s|reuse|%s|%s' % (rule, label, clabel)
+            try:
+                text = run_pipeline(model, source, **cfg)
+            except MinifyRaises as ex:
+                rep.violation(rule, fi.loc(), 'probe `%s`, %s' % (label, clabel), '%s: minify fails on a valid module' % ex, key=key)
+                continue
+            n += text != source
+            problems = judge_resolution(source, text, rename_globals=cfg['rename_globals'])
+            rep.check(not problems, rule, fi.loc(), 'probe `%s`, %s' % (label, clabel),
+                      'every identifier resolves, under the interpreter\'s scoping rules, to the counterpart of the binding it resolved to; bindings neither split nor merge; interface names untouched',
+                      '; '.join(problems[:3]) + ' -- output: %r' % text[:200], key=key)
+    rep.sensitive(n >= 8, 'only %d of the name-reuse probes are changed by renaming at all' % n)
+
+
 def idioms(model, rep, rule):
     """Probes in which one name is bound in several scopes (so the alpha-equivalence oracle does not apply): the output must compile, must not
     leave a name unbound that the original binds, and must keep the structure."""
@@ -897,5 +1119,7 @@ def idioms(model, rep, rule):
                     problems.append('names bound in class bodies changed: %s -> %s' % ([x for x, y in zip(ca, cb) if x != y][:1], [y for x, y in zip(ca, cb) if x != y][:1]))
             except SyntaxError as e:
                 problems.append('the output does not parse: %s' % e)
+            if not problems:
+                problems = judge_resolution(source, text, rename_globals=cfg['rename_globals'])
             rep.check(not problems, rule, fi.loc(), 'probe `%s`, %s -> %r' % (label, clabel, text[:70]), 'compiles, same structure, no reference loses its binding',
                       '; '.join(problems[:3]) + ' -- output: %r' % text[:160], key=key)
